@@ -31,7 +31,16 @@ Proof.
   - intros e' id' Hin. apply In_deq in Hin. destruct Hin as [_ Hin]. eauto.
 Qed.
 
-Definition wf (c : rctx) : Prop := 1 <= c_timeout c /\ (c_repeated c = true -> c_timeout c <= c_freq c).
+(** what keeps the module callbacks from aborting inside the end-blocker: a context owned by a
+    module has a positive (batch) response threshold; a context of the random module has at most
+    one request per batch, so that a batch still running has no output yet *)
+Definition wfm (c : rctx) : Prop :=
+  0 <= c_resps c
+  /\ (c_module c <> 0 -> 1 <= c_bthr c /\ 1 <= c_thr c)
+  /\ (c_module c = 2 -> c_reqs c <= 1 /\ (c_done c = false -> c_outs c = 0)).
+
+Definition wf (c : rctx) : Prop :=
+  (1 <= c_timeout c /\ (c_repeated c = true -> c_timeout c <= c_freq c)) /\ wfm c.
 
 (** ** The invariant *)
 Record QInv (s : state) : Prop := {
@@ -169,7 +178,7 @@ Proof.
 Qed.
 
 (** ** Messages *)
-Lemma call_inv s id cons t r f n rest : QInv s -> QInv (fst (call s id cons t r f n rest)).
+Lemma call_inv s id cons t r f n np rest : QInv s -> QInv (fst (call s id cons t r f n np rest)).
 Proof.
   intros Q. unfold call.
   destruct ((t <=? 0) || (max_timeout <? t) || (f <? 0)) eqn:E1; [exact Q|].
@@ -181,19 +190,38 @@ Proof.
   apply enter_new_inv; auto.
   - destruct (get id (nmark s)) eqn:Hn; [|reflexivity]. exfalso. apply (s_ctx s Q id); [left; congruence|exact Hnone].
   - destruct (get id (xmark s)) eqn:Hx; [|reflexivity]. exfalso. apply (s_ctx s Q id); [right; congruence|exact Hnone].
-  - split; simpl; [lia|]. intros ->. simpl in E2. destruct (f =? 0) eqn:Ef; [lia|].
+  - split; [|unfold wfm; simpl; repeat split; try lia; intros H; congruence].
+    split; simpl; [lia|]. intros ->. simpl in E2. destruct (f =? 0) eqn:Ef; [lia|].
     apply Z.eqb_neq in Ef. apply orb_false_iff in E2. destruct E2 as [E2 _]. apply orb_false_iff in E2. destruct E2 as [E2 _].
     apply andb_false_iff in E2. destruct E2 as [E2|E2]; [apply Z.ltb_ge in E2|apply Z.ltb_ge in E2]; lia.
   - lia.
 Qed.
 
+Lemma callm_inv s id cons m t r f n thr np rest : QInv s -> QInv (fst (callm s id cons m t r f n thr np rest)).
+Proof.
+  intros Q. unfold callm.
+  destruct ((m <? 1) || (2 <? m) || ((m =? 2) && negb (np =? 1))) eqn:E0; [exact Q|].
+  destruct ((t <=? 0) || (max_timeout <? t) || (f <? 0)) eqn:E1; [exact Q|].
+  destruct (r && (((0 <? f) && (f <? t)) || (n <? -1) || (n =? 0))) eqn:E2; [exact Q|].
+  destruct ((thr <? 1) || (np <? thr)) eqn:E4; [exact Q|].
+  destruct (has id (ctxs s)) eqn:E3; [exact Q|]. destruct rest; try exact Q. simpl.
+  apply orb_false_iff in E1. destruct E1 as [E1 E1f]. apply Z.ltb_ge in E1f.
+  apply orb_false_iff in E1. destruct E1 as [E1 _]. apply Z.leb_gt in E1.
+  apply orb_false_iff in E4. destruct E4 as [E4 _]. apply Z.ltb_ge in E4.
+  apply upd_set_inv; [exact Q|simpl; discriminate|].
+  split; [|unfold wfm; simpl; repeat split; try lia; intros H; discriminate].
+  split; simpl; [lia|]. intros ->. simpl in E2. destruct (f =? 0) eqn:Ef; [lia|].
+  apply Z.eqb_neq in Ef. apply orb_false_iff in E2. destruct E2 as [E2 _]. apply orb_false_iff in E2. destruct E2 as [E2 _].
+  apply andb_false_iff in E2. destruct E2 as [E2|E2]; [apply Z.ltb_ge in E2|apply Z.ltb_ge in E2]; lia.
+Qed.
+
 Lemma set_state_wf c st : wf c -> wf (set_state c st).
 Proof. intros H; exact H. Qed.
 
-Lemma pause_inv s id sd rest : QInv s -> QInv (fst (pause s id sd rest)).
+Lemma pause_inv bym s id sd rest : QInv s -> QInv (fst (pause_k bym s id sd rest)).
 Proof.
-  intros Q. unfold pause. destruct (get id (ctxs s)) as [c|] eqn:Hg; [|exact Q].
-  destruct (negb (sd =? c_consumer c)); [exact Q|]. destruct (negb (c_repeated c)); [exact Q|].
+  intros Q. unfold pause_k. destruct (get id (ctxs s)) as [c|] eqn:Hg; [|exact Q].
+  destruct (negb (authorized bym sd c)); [exact Q|]. destruct (negb (c_repeated c)); [exact Q|].
   destruct (negb (eqb (c_state c) CRunning)); [exact Q|]. destruct rest; try exact Q. simpl.
   apply upd_set_inv; [exact Q|simpl; discriminate|apply set_state_wf; eapply s_wf; eauto].
 Qed.
@@ -201,15 +229,15 @@ Qed.
 Lemma kill_inv s id sd rest : QInv s -> QInv (fst (kill s id sd rest)).
 Proof.
   intros Q. unfold kill. destruct (get id (ctxs s)) as [c|] eqn:Hg; [|exact Q].
-  destruct (negb (sd =? c_consumer c)); [exact Q|]. destruct (negb (c_repeated c)); [exact Q|].
+  destruct (negb (authorized false sd c)); [exact Q|]. destruct (negb (c_repeated c)); [exact Q|].
   destruct rest; try exact Q. simpl.
   apply upd_set_inv; [exact Q|simpl; discriminate|apply set_state_wf; eapply s_wf; eauto].
 Qed.
 
-Lemma start_inv s id sd rest : QInv s -> QInv (fst (start s id sd rest)).
+Lemma start_inv bym s id sd rest : QInv s -> QInv (fst (start_k bym s id sd rest)).
 Proof.
-  intros Q. unfold start. destruct (get id (ctxs s)) as [c|] eqn:Hg; [|exact Q].
-  destruct (negb (sd =? c_consumer c)); [exact Q|]. destruct (negb (eqb (c_state c) CPaused)); [exact Q|].
+  intros Q. unfold start_k. destruct (get id (ctxs s)) as [c|] eqn:Hg; [|exact Q].
+  destruct (negb (authorized bym sd c)); [exact Q|]. destruct (negb (eqb (c_state c) CPaused)); [exact Q|].
   destruct rest; try exact Q. simpl.
   pose proof (s_wf s Q _ _ Hg) as Hwf.
   unfold has. destruct (get id (xmark s)) as [e|] eqn:Hx; simpl.
@@ -219,28 +247,40 @@ Proof.
     + apply enter_new_inv; auto. lia.
 Qed.
 
-Lemma update_inv s id sd t f n rest : QInv s -> QInv (fst (update s id sd t f n rest)).
+Lemma update_inv bym s id sd thr np t f n rest : QInv s -> QInv (fst (update_k bym s id sd thr np t f n rest)).
 Proof.
-  intros Q. unfold update. destruct (get id (ctxs s)) as [c|] eqn:Hg; [|exact Q].
-  destruct (negb (sd =? c_consumer c)); [exact Q|]. destruct (eqb (c_state c) CCompleted); [exact Q|].
-  destruct ((t <? 0) || (n <? -1) || (max_timeout <? t)) eqn:E1; [exact Q|].
+  intros Q. unfold update_k. destruct (get id (ctxs s)) as [c|] eqn:Hg; [|exact Q].
+  destruct (negb (authorized bym sd c)); [exact Q|]. destruct (bym && negb (c_module c =? 1)); [exact Q|].
+  destruct (eqb (c_state c) CCompleted); [exact Q|].
+  destruct ((t <? 0) || (n <? -1) || (max_timeout <? t) || (thr <? 0) || (np <? 0)) eqn:E1; [exact Q|].
   set (t' := if t =? 0 then c_timeout c else t). set (f' := if f =? 0 then c_freq c else f).
+  set (th := if thr =? 0 then c_thr c else thr). set (np' := if np =? 0 then c_nprov c else np).
+  destruct (bym && (np' <? th)); [exact Q|].
   destruct (f' <? t') eqn:E2; [exact Q|]. destruct ((1 <=? n) && (n <? c_counter c)); [exact Q|].
   destruct rest; try exact Q. simpl.
-  destruct (s_wf s Q _ _ Hg) as [Hw1 Hw2]. apply Z.ltb_ge in E2.
+  destruct (s_wf s Q _ _ Hg) as [[Hw1 Hw2] (Hm1 & Hm2 & Hm3)]. apply Z.ltb_ge in E2.
+  apply orb_false_iff in E1. destruct E1 as [E1 _]. apply orb_false_iff in E1. destruct E1 as [E1 E1t]. apply Z.ltb_ge in E1t.
   apply orb_false_iff in E1. destruct E1 as [E1 _]. apply orb_false_iff in E1. destruct E1 as [E1 _]. apply Z.ltb_ge in E1.
   assert (1 <= t') as Ht. { unfold t'. destruct (t =? 0) eqn:Et; [exact Hw1|]. apply Z.eqb_neq in Et. lia. }
   apply upd_set_inv; [exact Q|simpl; intros Hr; eapply s_run; eauto|].
-  split; simpl.
+  split; [split; simpl|].
   - destruct (0 <? t') eqn:E; [exact Ht|exact Hw1].
   - intros _. assert (0 <? t' = true) as -> by (apply Z.ltb_lt; lia).
     assert (0 <? f' = true) as -> by (apply Z.ltb_lt; lia). exact E2.
+  - unfold wfm. simpl. split; [exact Hm1|]. split; [|exact Hm3].
+    intros Hmod. destruct (Hm2 Hmod) as [Hb Hthr]. split; [exact Hb|].
+    destruct bym; [|exact Hthr]. unfold th. destruct (thr =? 0) eqn:Eth; [exact Hthr|]. apply Z.eqb_neq in Eth. lia.
 Qed.
 
-Lemma respond_inv s id rest : QInv s -> QInv (fst (respond s id rest)).
+Lemma respond_inv s id good seedok rest : QInv s -> QInv (fst (respond s id good seedok rest)).
 Proof.
-  intros Q. unfold respond. destruct rest; try exact Q. destruct (get id (ctxs s)) as [c|] eqn:Hg; [|exact Q]. simpl.
-  apply upd_set_inv; [exact Q|simpl; intros Hr; eapply s_run; eauto|exact (s_wf s Q _ _ Hg)].
+  intros Q. unfold respond. destruct rest; try exact Q. destruct (get id (ctxs s)) as [c|] eqn:Hg; [|exact Q].
+  destruct (c_reqs c <=? c_resps c) eqn:Ea; [exact Q|]. simpl. apply Z.leb_gt in Ea.
+  destruct (s_wf s Q _ _ Hg) as [Hw (Hm1 & Hm2 & Hm3)].
+  apply upd_set_inv; [exact Q|simpl; intros Hr; eapply s_run; eauto|].
+  split; [exact Hw|]. unfold wfm. simpl. split; [lia|]. split; [exact Hm2|].
+  intros Hmod. destruct (Hm3 Hmod) as [Hr1 Hr2]. split; [exact Hr1|].
+  assert (c_resps c + 1 = c_reqs c) as He by lia. rewrite He, Z.eqb_refl. discriminate.
 Qed.
 
 (** ** The two handlers of the end-blocker *)
@@ -257,7 +297,11 @@ Proof.
   intros Q Hin. pose proof (proj1 (qk_mark _ _ _ (s_exp s Q) _ _) Hin) as Hx.
   assert (exists c, get id (ctxs s) = Some c) as (c & Hg).
   { destruct (get id (ctxs s)) as [c|] eqn:Hg; [eauto|]. exfalso. apply (s_ctx s Q id); [right; congruence|exact Hg]. }
-  destruct (s_wf s Q _ _ Hg) as [Hw1 Hw2].
+  destruct (s_wf s Q _ _ Hg) as [[Hw1 Hw2] (Hm1 & Hm2 & Hm3)].
+  assert (forall st, wf (mkC st true (c_counter c) (c_timeout c) (c_repeated c) (c_freq c) (c_total c) (c_consumer c)
+                            (c_reqs c) (c_resps c) (c_module c) (c_nprov c) (c_thr c) (c_bthr c) 0 false)) as Hwfd.
+  { intros st. split; [split; simpl; auto|]. unfold wfm. simpl. split; [exact Hm1|]. split; [exact Hm2|].
+    intros Hmod. destruct (Hm3 Hmod) as [Hr1 _]. split; [exact Hr1|discriminate]. }
   unfold expire_one, get_ctx. rewrite Hg. simpl c_state.
   destruct (c_state c) eqn:Hst.
   - (* running *)
@@ -268,7 +312,7 @@ Proof.
       * apply (upd_set_inv (add_new (del_exp s id (height s)) id (height s - c_timeout c + c_freq c)) id).
         -- apply move_exp_to_new_inv; [exact Q|exact Hx|lia].
         -- intros _. left. simpl. rewrite get_set_same. discriminate.
-        -- split; simpl; auto.
+        -- rewrite <- Hst. apply Hwfd.
       * intros e He. simpl. apply In_enq. right. exact He.
       * intros e He. simpl in He. apply In_enq in He. destruct He as [->|He]; [right; simpl; lia|left; exact He].
     + split; [exact (del_exp_ctx_inv s id (height s) Q Hx)|]. split; [reflexivity|]. split; [reflexivity|]. simpl. split; auto.
@@ -277,7 +321,7 @@ Proof.
     apply (upd_set_inv (del_exp s id (height s)) id).
     + apply del_exp_inv; [exact Q|exact Hx|]. intros c' Hc'. rewrite Hg in Hc'. inversion Hc'; subst. congruence.
     + simpl. discriminate.
-    + split; simpl; auto.
+    + rewrite <- Hst. apply Hwfd.
   - (* completed *)
     split; [exact (del_exp_ctx_inv s id (height s) Q Hx)|]. split; [reflexivity|]. split; [reflexivity|]. simpl. split; auto.
 Qed.
@@ -295,18 +339,23 @@ Proof.
   intros Q Hin. pose proof (proj1 (qk_mark _ _ _ (s_new s Q) _ _) Hin) as Hn.
   assert (exists c, get id (ctxs s) = Some c) as (c & Hg).
   { destruct (get id (ctxs s)) as [c|] eqn:Hg; [eauto|]. exfalso. apply (s_ctx s Q id); [left; congruence|exact Hg]. }
-  destruct (s_wf s Q _ _ Hg) as [Hw1 Hw2].
+  destruct (s_wf s Q _ _ Hg) as [[Hw1 Hw2] (Hm1 & Hm2 & Hm3)].
   unfold newbatch_one, get_ctx. rewrite Hg.
   destruct (c_state c) eqn:Hst.
   - destruct (lookup_res id res) as [n|].
     + split; [|split; [reflexivity|split; [reflexivity|split]]].
       * apply move_new_to_exp_inv; [|exact Hn|simpl; lia].
-        apply upd_set_inv; [exact Q|intros _; left; congruence|split; simpl; auto].
+        apply upd_set_inv; [exact Q|intros _; left; congruence|].
+        split; [split; simpl; auto|]. unfold wfm. simpl. split; [lia|]. split.
+        { intros Hmod. destruct (Hm2 Hmod). auto. }
+        { intros Hmod. rewrite Hmod. simpl. split; [lia|reflexivity]. }
       * intros e He. simpl in He. apply In_enq in He. destruct He as [->|He]; [right; simpl; lia|left; exact He].
       * intros e He. simpl. apply In_enq. right. exact He.
     + split; [|split; [reflexivity|split; [reflexivity|simpl; split; auto]]].
       apply del_new_inv; [|exact Hn|].
-      * apply upd_set_inv; [exact Q|simpl; discriminate|split; simpl; auto].
+      * apply upd_set_inv; [exact Q|simpl; discriminate|].
+        split; [split; simpl; auto|]. unfold wfm. simpl. split; [exact Hm1|]. split; [exact Hm2|].
+        intros Hmod. destruct (Hm3 Hmod) as [Hr1 _]. split; [exact Hr1|discriminate].
       * simpl. intros c'. rewrite get_set_same. intros Hc'. inversion Hc'; subst. simpl. discriminate.
   - split; [|split; [reflexivity|split; [reflexivity|simpl; split; auto]]].
     apply del_new_inv; [exact Q|exact Hn|]. intros c' Hc'. rewrite Hg in Hc'. inversion Hc'; subst. congruence.
@@ -399,12 +448,16 @@ Lemma step_inv s o : QInv s -> QInv (fst (step s o)).
 Proof.
   intros Q. destruct o; simpl.
   - apply call_inv; exact Q.
+  - apply callm_inv; exact Q.
+  - apply start_inv; exact Q.
+  - apply pause_inv; exact Q.
+  - apply update_inv; exact Q.
   - apply pause_inv; exact Q.
   - apply start_inv; exact Q.
   - apply kill_inv; exact Q.
   - apply update_inv; exact Q.
   - apply respond_inv; exact Q.
-  - apply end_block_inv; exact Q.
+  - destruct (blocker_aborts s); [exact Q|]. apply end_block_inv; exact Q.
 Qed.
 
 Lemma run_inv : forall ops s, QInv s -> QInv (run s ops).
@@ -413,9 +466,38 @@ Proof. induction ops as [|o ops IH]; simpl; intros s Q; [exact Q|]. apply IH. ap
 Theorem QInv_reachable h0 ops : QInv (run (init h0) ops).
 Proof. apply run_inv. apply QInv_init. Qed.
 
-(** the end-blocker has no aborting path for contexts without an owning module *)
-Theorem blocks_total_service s res : snd (step s (EndBlock res)) <> Abort.
-Proof. simpl. discriminate. Qed.
+(** the module callback of a well-formed context whose batch is still running cannot abort:
+    its batch response threshold is positive, so a nil error comes with at least one output; and
+    a random context has a single request, so a batch with an output is no longer running *)
+Lemma cb_safe c : wf c -> negb (c_done c) && cb_aborts c = false.
+Proof.
+  intros [_ (Hm1 & Hm2 & Hm3)]. destruct (c_done c) eqn:Ed; [reflexivity|]. simpl. unfold cb_aborts.
+  destruct (c_module c =? 0) eqn:Em; [reflexivity|]. apply Z.eqb_neq in Em. simpl.
+  destruct (Hm2 Em) as [Hb _]. destruct (c_bthr c <=? c_outs c) eqn:Eb; [|reflexivity]. apply Z.leb_le in Eb. simpl.
+  assert (c_outs c =? 0 = false) as -> by (apply Z.eqb_neq; lia). simpl.
+  destruct (c_module c =? 2) eqn:E2; [|reflexivity]. apply Z.eqb_eq in E2. destruct (Hm3 E2) as [_ Ho]. assert (c_outs c = 0) by (apply Ho; first [exact Ed|reflexivity]). lia.
+Qed.
+
+(** the end-blocker never aborts on a state satisfying the invariant — including the callbacks
+    of the oracle and random modules invoked by the expiration handler *)
+Theorem blocks_total_service s res : QInv s -> snd (step s (EndBlock res)) <> Abort.
+Proof.
+  intros Q. simpl. assert (blocker_aborts s = false) as ->; [|discriminate].
+  unfold blocker_aborts. destruct (existsb _ _) eqn:E; [|reflexivity]. exfalso.
+  apply existsb_exists in E. destruct E as (id & _ & Hb). unfold get_ctx in Hb.
+  destruct (get id (ctxs s)) as [c|] eqn:Hg.
+  - rewrite (cb_safe c (s_wf s Q _ _ Hg)) in Hb. discriminate.
+  - simpl in Hb. discriminate.
+Qed.
+
+(** the nil-error dereference itself is there: on a context owned by a module with batch
+    threshold 0 and no output the callback aborts (such a context is not reachable) *)
+Theorem callback_aborts_without_threshold :
+  exists c, c_module c <> 0 /\ c_done c = false /\ cb_aborts c = true /\ ~ wf c.
+Proof.
+  exists (mkC CRunning false 1 2 true 2 (-1) 0 1 0 1 1 0 0 0 false). split; [discriminate|]. split; [reflexivity|].
+  split; [reflexivity|]. intros [_ (_ & H & _)]. destruct (H ltac:(discriminate)) as [Hb _]. simpl in Hb. lia.
+Qed.
 
 (** "exactly one entry": a running context is in exactly one of the two queues, with one entry *)
 Theorem one_entry_per_running_context s : QInv s ->
@@ -490,38 +572,37 @@ Qed.
 
 Definition LInv (s : state) : Prop := LogOK (height s) (ndone s) /\ LogOK (height s) (xdone s).
 
+Ltac destr :=
+  repeat (match goal with |- context [match ?x with _ => _ end] => destruct x end; simpl).
+Ltac unfold_ops := unfold call, callm, pause_k, start_k, kill, update_k, respond.
+
 Lemma step_logs_unchanged s o :
   (match o with EndBlock _ => False | _ => True end) ->
   ndone (fst (step s o)) = ndone s /\ xdone (fst (step s o)) = xdone s /\ height (fst (step s o)) = height s.
 Proof.
-  intros Ho. destruct o; simpl; try contradiction.
-  - unfold call. destruct (_ || _ || _); [auto|]. destruct (_ && _); [auto|]. destruct (has _ _); [auto|]. destruct rest; simpl; auto.
-  - unfold pause. destruct (get _ _); [|auto]. destruct (negb _); [auto|]. destruct (negb _); [auto|]. destruct (negb _); [auto|]. destruct rest; simpl; auto.
-  - unfold start. destruct (get _ _); [|auto]. destruct (negb _); [auto|]. destruct (negb _); [auto|]. destruct rest; simpl; auto.
-    destruct (negb _ && negb _); simpl; auto.
-  - unfold kill. destruct (get _ _); [|auto]. destruct (negb _); [auto|]. destruct (negb _); [auto|]. destruct rest; simpl; auto.
-  - unfold update. destruct (get _ _); [|auto]. destruct (negb _); [auto|]. destruct (eqb _ _); [auto|].
-    destruct (_ || _); [auto|]. destruct (_ <? _); [auto|]. destruct (_ && _); [auto|]. destruct rest; simpl; auto.
-  - unfold respond. destruct rest; simpl; auto. destruct (get _ _); simpl; auto.
+  intros Ho. destruct o; simpl; try contradiction; unfold_ops; destr; auto.
+Qed.
+
+Lemma end_block_linv s res : QInv s -> LInv s -> LInv (end_block s res).
+Proof.
+  intros Q [Ln Lx]. unfold end_block.
+  destruct (expire_all_logs (map snd (due (height s) (xq s))) s) as (E1 & E2 & E3).
+  destruct (expire_all_spec (map snd (due (height s) (xq s))) s Q) as (Q1 & _).
+  { apply NoDup_due_ids. exact (qk_nodup _ _ _ (s_exp s Q)). }
+  { intros id Hin. apply due_ids_in. exact Hin. }
+  set (s1 := fold_left expire_one (map snd (due (height s) (xq s))) s) in *.
+  destruct (newbatch_all_logs res (map snd (due (height s1) (nq s1))) s1) as (N1 & N2 & N3).
+  split; simpl.
+  - rewrite N2, E1, E3. apply LogOK_app; [exact Ln|]. apply NoDup_due_ids. exact (qk_nodup _ _ _ (s_new s1 Q1)).
+  - rewrite N1, E2. apply LogOK_app; [exact Lx|]. apply NoDup_due_ids. exact (qk_nodup _ _ _ (s_exp s Q)).
 Qed.
 
 Lemma step_linv s o : QInv s -> LInv s -> LInv (fst (step s o)).
 Proof.
-  intros Q [Ln Lx]. destruct o as [id c t r f n rest|id sd rest|id sd rest|id sd rest|id sd t f n rest|id rest|res].
-  7: {
-    simpl. unfold end_block.
-    destruct (expire_all_logs (map snd (due (height s) (xq s))) s) as (E1 & E2 & E3).
-    destruct (expire_all_spec (map snd (due (height s) (xq s))) s Q) as (Q1 & _).
-    { apply NoDup_due_ids. exact (qk_nodup _ _ _ (s_exp s Q)). }
-    { intros id Hin. apply due_ids_in. exact Hin. }
-    set (s1 := fold_left expire_one (map snd (due (height s) (xq s))) s) in *.
-    destruct (newbatch_all_logs res (map snd (due (height s1) (nq s1))) s1) as (N1 & N2 & N3).
-    split; simpl.
-    - rewrite N2, E1, E3. apply LogOK_app; [exact Ln|]. apply NoDup_due_ids. exact (qk_nodup _ _ _ (s_new s1 Q1)).
-    - rewrite N1, E2. apply LogOK_app; [exact Lx|]. apply NoDup_due_ids. exact (qk_nodup _ _ _ (s_exp s Q)).
-  }
+  intros Q L. destruct o.
+  11: { simpl. destruct (blocker_aborts s); [exact L|]. apply end_block_linv; assumption. }
   all: match goal with |- LInv (fst (step ?s ?o)) =>
-         destruct (step_logs_unchanged s o I) as (H1 & H2 & H3); unfold LInv; rewrite H1, H2, H3; split; assumption end.
+         destruct (step_logs_unchanged s o I) as (H1 & H2 & H3); destruct L as [Ln Lx]; unfold LInv; rewrite H1, H2, H3; split; assumption end.
 Qed.
 
 Lemma run_linv : forall ops s, QInv s -> LInv s -> LInv (run s ops).
@@ -560,27 +641,18 @@ Lemma step_keeps_or_logs s o : QInv s ->
   (forall k, In k (nq s) -> In k (nq (fst (step s o))) \/ In (k, fst k) (ndone (fst (step s o))))
   /\ (forall k, In k (xq s) -> In k (xq (fst (step s o))) \/ In (k, fst k) (xdone (fst (step s o)))).
 Proof.
-  intros Q.
-  destruct o as [id c t r f n rest|id sd rest|id sd rest|id sd rest|id sd t f n rest|id rest|res]; simpl.
-  - unfold call. destruct (_ || _ || _); [auto|]. destruct (_ && _); [auto|]. destruct (has _ _); [auto|].
-    destruct rest; simpl; auto. split; auto. intros k Hk. left. apply In_enq. auto.
-  - unfold pause. destruct (get _ _); [|auto]. destruct (negb _); [auto|]. destruct (negb _); [auto|]. destruct (negb _); [auto|]. destruct rest; simpl; auto.
-  - unfold start. destruct (get _ _); [|auto]. destruct (negb _); [auto|]. destruct (negb _); [auto|]. destruct rest; simpl; auto.
-    destruct (negb _ && negb _); simpl; auto. split; auto. intros k Hk. left. apply In_enq. auto.
-  - unfold kill. destruct (get _ _); [|auto]. destruct (negb _); [auto|]. destruct (negb _); [auto|]. destruct rest; simpl; auto.
-  - unfold update. destruct (get _ _); [|auto]. destruct (negb _); [auto|]. destruct (eqb _ _); [auto|].
-    destruct (_ || _); [auto|]. destruct (_ <? _); [auto|]. destruct (_ && _); [auto|]. destruct rest; simpl; auto.
-  - unfold respond. destruct rest; simpl; auto. destruct (get _ _); simpl; auto.
-  - apply end_block_keeps_or_logs. exact Q.
+  intros Q. destruct o.
+  11: { simpl. destruct (blocker_aborts s); [split; auto|]. apply end_block_keeps_or_logs. exact Q. }
+  all: simpl; unfold_ops; destr; split; auto; intros k Hk; left; apply In_enq; auto.
 Qed.
 
 (** the logs only grow *)
 Lemma step_logs_mono s o :
   (forall x, In x (ndone s) -> In x (ndone (fst (step s o)))) /\ (forall x, In x (xdone s) -> In x (xdone (fst (step s o)))).
 Proof.
-  destruct o as [id c t r f n rest|id sd rest|id sd rest|id sd rest|id sd t f n rest|id rest|res].
-  7: {
-    simpl. unfold end_block.
+  destruct o.
+  11: {
+    simpl. destruct (blocker_aborts s); [split; auto|]. unfold end_block.
     destruct (expire_all_logs (map snd (due (height s) (xq s))) s) as (E1 & E2 & E3).
     set (s1 := fold_left expire_one (map snd (due (height s) (xq s))) s) in *.
     destruct (newbatch_all_logs res (map snd (due (height s1) (nq s1))) s1) as (N1 & N2 & N3).
@@ -648,7 +720,7 @@ Definition end_block_old (ferr : list Z) (s : state) (res : list (Z * nbres)) : 
 Theorem old_handler_leaves_stale_entry :
   exists s, QInv s /\ ~ QInv (end_block_old [1] s []) /\ end_block_old [] s [] = end_block s [].
 Proof.
-  exists (fst (step (init 1) (Call 1 0 2 false 0 0 Ok))). split; [apply step_inv; apply QInv_init|]. split; [|reflexivity].
+  exists (fst (step (init 1) (Call 1 0 2 false 0 0 1 Ok))). split; [apply step_inv; apply QInv_init|]. split; [|reflexivity].
   intros Q. pose proof (qk_future _ _ _ (s_new _ Q) 1 1) as H. vm_compute in H.
   apply H; [left; reflexivity|reflexivity].
 Qed.
